@@ -574,7 +574,12 @@ pub fn gen_builder_trace(master: u64, run: u64) -> BuilderTrace {
     };
     let p_len_max = *r.pick(&[0.0, 0.0, 0.1, 0.5, 1.0]);
     let p_field_max = *r.pick(&[0.0, 0.0, 0.01, 0.2]);
-    let n_ops = (1 + r.geometric(4.0) as usize).min(40).max(2);
+    let mut n_ops = (1 + r.geometric(4.0) as usize).min(40).max(2);
+    // rare long histories (own sub-stream): "something that only happens on the N-th use"
+    let mut lr = root.fork("long_history");
+    if lr.chance(0.01) {
+        n_ops = lr.range(200, 700) as usize;
+    }
     let w_build = 6u64;
     let w_refused = if r.chance(0.8) { 2 } else { 0 };
     let w_nowire = if r.chance(0.6) { 1 } else { 0 };
@@ -707,7 +712,7 @@ pub fn gen_builder_trace(master: u64, run: u64) -> BuilderTrace {
 }
 
 /// fixed corner scenarios (seed-independent)
-pub fn directed_builder() -> Vec<BuilderTrace> {
+pub fn directed_builder(thorough: bool) -> Vec<BuilderTrace> {
     let all = msg_numbers();
     let mut out = Vec::new();
     let spec = |msg: u16, seed: u64, pl: f64| GenSpec { msg, gen_seed: seed, p_len_max: pl, p_field_max: 0.0 };
@@ -771,6 +776,29 @@ pub fn directed_builder() -> Vec<BuilderTrace> {
                 vec![Op::Build { spec: spec(longs.first().copied().unwrap_or(*s), 700, 1.0) }, Op::NoWire { which: w.into(), n: 999 }, Op::Build { spec: spec(*s, 701, 0.0) }],
                 &mut out,
             );
+        }
+    }
+    // long histories: exactly N earlier builds (counters that wrap, "every N-th call" logic)
+    {
+        let filler = shorts.first().copied().unwrap_or(all[0]);
+        let long = longs.first().copied().unwrap_or(all[0]);
+        let mut ns: Vec<usize> = vec![2, 3, 7, 8, 9, 15, 16, 17, 31, 32, 33, 63, 64, 65, 127, 128, 129, 254, 255, 256, 257, 258, 511, 512, 513, 1023, 1024, 1025];
+        if thorough {
+            ns.extend_from_slice(&[65_535, 65_536, 65_537]);
+        }
+        for n in ns {
+            for (ti, tgt) in shorts.iter().take(4).enumerate() {
+                if n > 2000 && ti > 0 {
+                    continue;
+                }
+                let mut ops: Vec<Op> = Vec::with_capacity(n + 1);
+                for i in 0..n.saturating_sub(1) {
+                    ops.push(Op::Build { spec: spec(filler, 1000 + (i % 7) as u64, 0.0) });
+                }
+                ops.push(Op::Build { spec: spec(long, 1100, 1.0) });
+                ops.push(Op::Build { spec: spec(*tgt, 1200 + ti as u64, 0.0) });
+                add("exactly_n_earlier_builds", ops, &mut out);
+            }
         }
     }
     // every type once after a maximum-length history and once before
